@@ -30,7 +30,7 @@ def judge(case):
         out.nontrivial = False
         return out
     cut = case["cut"]
-    assert cut < len(payload) and cut * 8 < nbits
+    core.require(cut < len(payload) and cut * 8 < nbits, "C06 cut")
     _judge_cut(identity, payload, cut, out)
     return out
 
